@@ -48,8 +48,13 @@ RULES = {
     "or a local - and is never a module-level list/dict or a mutable parameter default: the pop is skipped when a proto is "
     "rejected half-way, so with a shared stack the scopes of the rejected graph stay visible and the next proto's dangling names "
     "resolve to values of another model",
+    "R11": "nothing that was linked is dropped: attributes are keyed by name and a later entry of the same name replaces an earlier "
+    "one, so where the deserializer turns the attributes of a NodeProto into IR attributes with the enclosing scopes at hand (a "
+    "subgraph's nodes register themselves as users of outer values while they are built), the entries are made unique by name "
+    "*before* they are deserialized - otherwise the nodes of the replaced subgraph stay in uses() of values of the returned model "
+    "although they are not part of it",
 }
-FLOORS = {"R1": 45, "R2": 6, "R3": 5, "R4": 5, "R5": 2, "R6": 3, "R7": 2, "R8": 3, "R9": 2, "R10": 4}
+FLOORS = {"R1": 45, "R2": 6, "R3": 5, "R4": 5, "R5": 2, "R6": 3, "R7": 2, "R8": 3, "R9": 2, "R10": 4, "R11": 1}
 EXPLANATION = (
     "Effect summaries (file-system primitives through the resolved call graph) for the deserialization entry set and "
     "the cheap tensor accessors; a sub-term analysis of every recursive call edge of the deserializer; dominator "
@@ -540,7 +545,50 @@ def rule_r10(ctx, ef):
     ctx.require(n >= 4, f"only {n} arguments of parameter-writing serde functions found")
 
 
+def rule_r11(ctx):
+    m = ctx.repo.modules[SERDE]
+    n = 0
+    for f in m.all_funcs:
+        if isinstance(f.node, ast.Lambda):
+            continue
+        for c in calls_in(f):
+            if (dotted_of(c.func) or "") != "_deserialize_attribute" or len(c.args) < 2:
+                continue
+            scopes = c.args[1]
+            if not (isinstance(scopes, ast.Name) and scopes.id in f.params):
+                continue  # a fresh scope stack: nothing of the model can be referenced from inside
+            # the iteration that feeds it: comprehension or loop over <proto>.attribute
+            comp = next((p_ for p_ in _ancestors(c, f.node) if isinstance(p_, (ast.ListComp, ast.GeneratorExp, ast.For))), None)
+            if comp is None:
+                continue
+            it = comp.generators[0].iter if not isinstance(comp, ast.For) else comp.iter
+            if not any(isinstance(x, ast.Attribute) and x.attr == "attribute" for x in ast.walk(it)):
+                continue
+            n += 1
+            if isinstance(comp, ast.For):
+                conds = [x.test for x in _ancestors(c, comp) if isinstance(x, ast.If)] + [x.test for x in comp.body if isinstance(x, ast.If)]
+            else:
+                conds = [t for g in comp.generators for t in g.ifs]
+            unique = any(any(isinstance(x, ast.Attribute) and x.attr == "name" for x in ast.walk(t)) for t in conds) or any(
+                isinstance(x, ast.Call) and (dotted_of(x.func) or "") in ("dict", "reversed") for x in ast.walk(it)) or isinstance(it, ast.Call) and isinstance(it.func, ast.Attribute) and it.func.attr == "values"
+            ctx.check("R11", f"{f.local}: attribute entries are made unique by name before they are deserialized", unique, f, c,
+                      f"every entry of `{norm(it)}` is deserialized with the enclosing scopes at hand and only then keyed by name: of two entries with one name "
+                      "the earlier is dropped, but the nodes of its subgraph have registered themselves as users of outer values - uses() of a value of "
+                      "the returned model names a node that is not in the model",
+                      how="filter of the comprehension / loop that feeds _deserialize_attribute(<proto attribute>, <scope stack parameter>)",
+                      construct="duplicate attribute names deserialized before being dropped")
+    ctx.require(n >= 1, "no deserialization of node attributes with enclosing scopes found")
+
+
+def _ancestors(node, stop):
+    p_ = getattr(node, "_parent", None)
+    while p_ is not None and p_ is not stop:
+        yield p_
+        p_ = getattr(p_, "_parent", None)
+
+
 def run(ctx):
+    rule_r11(ctx)
     rule_r9(ctx)
     rule_r8(ctx)
     from ..shared import rule_s9
